@@ -1,6 +1,7 @@
 package ext
 
 import (
+	"github.com/alligator/jqawk/cli"
 	"strings"
 
 	lang "github.com/alligator/jqawk/src"
@@ -183,4 +184,39 @@ func VHC03Programs() {
 	je, _ := err.(lang.JsonError)
 	vh.Assert(je.FileName == "in.json", "C03: the JSON error names the file: "+lbl(prog))
 	vh.Assert(!strings.Contains(out.String(), "E\n"), "C03: END rules do not run after a JSON input error")
+}
+
+// VHC03Cli: the incremental clause through the command line: whenever the tool asks a
+// named input file for more bytes, everything the values already delivered make it print
+// has been written to standard output.
+func VHC03Cli() {
+	k := 2 + vh.Choose("k", 2)
+	var items []any
+	var outs []string
+	for i := 0; i < k; i++ {
+		b := vh.Bool("b" + itoa(i))
+		items = append(items, map[string]any{"t": "v" + itoa(i), "b": b})
+		outs = append(outs, "BF\nv"+itoa(i)+" "+bstr(b)+"\nEF\n")
+	}
+	ds := &vh.DocStream{Items: items, Mode: vh.Choose("mode", 3)}
+	type req struct{ delivered, outLen int }
+	var reqs []req
+	ds.OnRead = func(delivered int) { reqs = append(reqs, req{delivered, vh.StdoutLen()}) }
+	p := &vh.Proc{Texts: map[string]string{}, Data: map[string]*vh.DocStream{"in.json": ds}}
+	p.Args = []string{c03Prog, "in.json"}
+	res := vh.RunCLI(cli.Run, p)
+	vh.Reach("front end streamed a file")
+	want := ""
+	for _, o := range outs {
+		want += o
+	}
+	vh.Assert(res.Exit == 0 && res.Stdout == want+"END\n", "C03: the tool processes the file's values one after another")
+	vh.Assert(len(reqs) > 0, "C03: the file is read")
+	for _, r := range reqs {
+		exp := 0
+		for i := 0; i < r.delivered && i < len(outs); i++ {
+			exp += len(outs[i])
+		}
+		vh.Assert(r.outLen == exp, "C03: before the tool reads on, the output of every value it already has is written (a named file is streamed, not read whole)")
+	}
 }
